@@ -467,11 +467,13 @@ pub fn run_curve<C: CurveAffine>(cx: &mut Ctx, plan: &MsmPlan, entries: &[Entry<
                     }
                 }
             }
-            out.sample = Some(json!({
+            // a few informative samples per curve (the runner keeps the first three it sees)
+            let sample_here = (matches!(n, 33 | 64 | 257) && t == [1, 2, 3, 5, 8, 16][n % 6]) || (n == 33 && t == 3) || (n >= 4096 && t == 1);
+            if sample_here { out.sample = Some(json!({
                 "curve": curve, "len": n, "rayon_pool": t, "entries": ran,
                 "patterns": list.iter().map(|i| i.name).collect::<Vec<_>>(),
                 "reference": if n <= NAIVE_UPTO { "direct naive sum and (Σ sᵢbᵢ)·G, both" } else { "(Σ sᵢbᵢ)·G with known seeded bᵢ" },
-            }));
+            })); }
             out
         });
     }
